@@ -12,7 +12,7 @@ import sys
 from typing import List
 import billiard.popen_fork as pf
 import billiard.process as bproc
-from harness.hbase import fail, tier, Prune, ND, realize
+from harness.hbase import fail, tier, Prune, ND, realize, pick, untraced, PART, NPART
 
 NPOLL = tier(3, 4)
 
@@ -141,7 +141,7 @@ def _poll(kinds, status, otherpid, want):
 
 def h_poll(kinds: List[int], status: int, otherpid: int) -> bool:
     """
-    pre: len(kinds) == NPOLL + 2 and all(0 <= k <= 4 for k in kinds) and 0 <= status <= 65535 and otherpid != 4242 and otherpid > 0
+    pre: len(kinds) == NPOLL + 2 and all(0 <= k <= 4 for k in kinds) and 0 <= status <= 65535 and otherpid != 4242 and otherpid > 0 and (NPART == 1 or kinds[0] == PART)
     post: _
     """
     try:
@@ -152,7 +152,7 @@ def h_poll(kinds: List[int], status: int, otherpid: int) -> bool:
 
 def h_poll_twin(kinds: List[int], status: int, otherpid: int) -> bool:
     """
-    pre: len(kinds) == NPOLL + 2 and all(0 <= k <= 4 for k in kinds) and 0 <= status <= 65535 and otherpid != 4242 and otherpid > 0
+    pre: len(kinds) == NPOLL + 2 and all(0 <= k <= 4 for k in kinds) and 0 <= status <= 65535 and otherpid != 4242 and otherpid > 0 and (NPART == 1 or kinds[0] == PART)
     post: _
     """
     try:
@@ -459,3 +459,85 @@ def h_wait_deadline(timeout: int, none: bool, t0: int, d1: int, d2: int, eintr: 
     elif polls[0] < 0:
         return fail('C19:wait:negative-timeout-reaches-the-kernel')
     return True
+
+
+# ---------------------------------------------------------------------------
+# forkserver children: the exit code travels over the sentinel pipe as one unsigned; a child killed by a signal never writes it
+
+FS_VALUES = (0, 1, 2, 3, 77, 255)
+
+
+class _PipeOS:
+    """os.read over a scripted pipe: `data` arrives in two pieces split at `cut`, then end of file (or an error)"""
+
+    def __init__(self, real, data, cut, error):
+        self._real = real
+        self.chunks = [c for c in (data[:cut], data[cut:]) if c]
+        self.error = error
+        self.reads = 0
+
+    def __getattr__(self, name):
+        return getattr(self._real, name)
+
+    def read(self, fd, n):
+        self.reads += 1
+        if self.error and not self.chunks:
+            raise OSError(5, 'Input/output error')
+        if not self.chunks:
+            return b''
+        c = self.chunks[0]
+        out, rest = c[:n], c[n:]
+        if rest:
+            self.chunks[0] = rest
+        else:
+            self.chunks.pop(0)
+        return out
+
+
+def h_forkserver_poll(ready: bool, block: bool, mode: int, vi: int, cut: int) -> bool:
+    """
+    pre: 0 <= mode <= 3 and 0 <= vi < len(FS_VALUES) and 0 <= cut <= 8
+    post: _
+    """
+    import billiard.popen_forkserver as pfs
+    import billiard.forkserver as fs
+    import billiard.connection as bc
+    mode, vi, cut = pick(mode, 0, 3), pick(vi, 0, len(FS_VALUES) - 1), pick(cut, 0, 8)
+    value = FS_VALUES[vi]
+    with untraced():
+        full = fs.UNSIGNED_STRUCT.pack(value)
+        data = {0: full, 1: b'', 2: full[:cut][:7], 3: full[:cut][:7]}[mode]
+        pos = _PipeOS(fs.os, data, cut, mode == 3)
+    calls = []
+
+    def fake_wait(objs, timeout=None):
+        calls.append(timeout)
+        return list(objs) if ready else []
+    saved = (bc.wait, fs.os)
+    bc.wait = fake_wait
+    fs.os = pos
+    try:
+        p = pfs.Popen.__new__(pfs.Popen)
+        p.pid = 4242
+        p.returncode = None
+        p.sentinel = 9
+        r = p.poll(0 if block else _os.WNOHANG)
+        if calls != [None if block else 0]:
+            return fail('C19:forkserver:poll-waits-with-the-wrong-timeout')
+        if not ready:
+            if r is not None or pos.reads or p.returncode is not None:
+                return fail('C19:forkserver:exit-code-reported-although-the-child-has-not-ended')
+            return True
+        if mode == 0:
+            if r != value or p.returncode != value:
+                return fail('C19:forkserver:exit-code-not-reported')
+        else:
+            # killed by a signal (or the pipe broke): the child never wrote a complete status
+            if r is None or r == 0:
+                return fail('C19:forkserver:abnormal-end-not-reported-as-non-zero')
+        reads = pos.reads
+        if p.poll() != r or pos.reads != reads:
+            return fail('C19:forkserver:exit-code-changes-or-is-read-again')
+        return True
+    finally:
+        bc.wait, fs.os = saved
